@@ -5,6 +5,7 @@ package pppoe
 import (
 	"context"
 	"encoding/binary"
+	"fmt"
 	"net"
 	"sync"
 	"time"
@@ -497,6 +498,10 @@ func ParsePADT(data []byte) (sessionID uint16, tags []Tag, err error) {
 	}
 
 	if len(data) > 6 {
+		// The declared payload length must fit in the bytes actually present
+		if 6+int(hdr.Length) > len(data) {
+			return 0, nil, fmt.Errorf("PADT payload length exceeds data")
+		}
 		tags, err = ParseTags(data[6 : 6+int(hdr.Length)])
 		if err != nil {
 			return 0, nil, err
